@@ -1,33 +1,24 @@
 /-
 Line-protocol driver for C15.  One JSON object per line:
 
-  {"op": <name>, "args": [<nested integer lists | integer>...], "axis": <int|null>,
-   "index": <int | [int...] | null>, "batches": <[sizes] | null>}
+  {"op": <name>,
+   "args": [{"cont": "np"|"da"|"ds"|"pyint"|"pyfloat", "dtype": "f64"|"i64"|"i32"|"u8"|"u64"|"bool",
+             "shape": [..], "data": [flat row-major values], "labels": [null | [ints], ...]}, ...],
+   "axis": null | int | [ints], "style": null | "axis" | "dim",
+   "dimkind": "absent" | "int" | "npint" | "name", "index": int | [ints] | null, "sel": bool,
+   "stack_dim_exists": bool, "concat_dim_missing": bool,
+   "batches": [sizes] | null, "literal": bool}
 
-Answer: {"shape":[...], "data":[[num,den],...]} (row-major, exact rationals in lowest terms)
-or {"error":true} where the Python code raises (`valid` is false).  With "batches" the
-arguments are cut into consecutive batches of those sizes and `batched` is evaluated (every
-inner application has to be valid as well).  `std` is printed as its radicand (`sq := id`).
+Values: integers as integers; float64 as the ORDINAL of the double (sign-magnitude reading of
+its 64 bits, see Model/F64.lean) or the string "nan".
+Answer: {"dtype":…, "shape":[…], "data":[…], "labels": null | [null | [ints], …]} or
+{"error": <token>} where the Python code raises (`errorOf` names the cause).  With "batches"
+the arguments are cut into consecutive batches of those sizes and `runBatched` is evaluated.
+`std` is printed as its radicand.
 -/
 import EkwVerif.Drive.Util
-import EkwVerif.Model.Backend
+import EkwVerif.Model.BackendRun
 open Lean EkwVerif.Drive EkwVerif.Backend
-
-partial def jDepth : Json → Nat
-  | .arr a => if a.size = 0 then 1 else 1 + jDepth a[0]!
-  | _ => 0
-
-partial def jExt (j : Json) (k : Nat) : Nat :=
-  match j with
-  | .arr a => if k = 0 then a.size else if a.size = 0 then 0 else jExt a[0]! (k - 1)
-  | _ => 0
-
-partial def jGet (j : Json) (i : Idx) (k : Nat) : Val :=
-  match j with
-  | .arr a => jGet (a.getD (i k) Json.null) i (k + 1)
-  | other => ((other.getInt?).toOption.getD 0 : Int)
-
-def arrOfJson (j : Json) : Arr := { rank := jDepth j, ext := jExt j, get := fun i => jGet j i 0 }
 
 def opOfString : String → Option Op
   | "mean" => some .mean | "std" => some .std | "max" => some .max | "min" => some .min
@@ -36,37 +27,89 @@ def opOfString : String → Option Op
   | "multiply" => some .multiply | "divide" => some .divide | "pow" => some .pow
   | "take" => some .take | _ => none
 
-def kwOfJson (j : Json) : Kw :=
-  let axis : Option Int := match j.getObjVal? "axis" with
-    | .ok (.num n) => if n.exponent = 0 then some n.mantissa else none
+def dtOfString : String → DType
+  | "f64" => .f64 | "i32" => .i32 | "u8" => .u8 | "u64" => .u64 | "bool" => .bool | _ => .i64
+
+def dtToString : DType → String
+  | .f64 => "f64" | .i64 => "i64" | .i32 => "i32" | .u8 => "u8" | .u64 => "u64" | .bool => "bool"
+
+def contOfString : String → Cont
+  | "da" => .da | "ds" => .ds | "pyint" => .pyInt | "pyfloat" => .pyFloat | _ => .np
+
+def fOfJson : Json → F64
+  | .str _ => .nan
+  | j => .fin (asInt j)
+
+def fToJson : F64 → Json
+  | .nan => Json.str "nan"
+  | .fin k => toJson k
+
+/-- row-major array over flat data -/
+def arrOfFlat {α : Type} [Inhabited α] (shape : List Nat) (data : Array α) : Arr α :=
+  let sh := shape.toArray
+  { rank := shape.length
+    ext := fun k => sh.getD k 0
+    get := fun i => Id.run do
+      let mut pos := 0
+      for k in [0:sh.size] do
+        pos := pos * sh[k]! + i k
+      return data.getD pos default }
+
+def labelsOfJson (j : Json) : Labels :=
+  (asArr j).map fun l => match l with
+    | .arr a => some (a.toList.map asInt)
     | _ => none
+
+def labelsToJson (l : Labels) : Json :=
+  Json.arr (l.map fun o => match o with
+    | none => Json.null
+    | some ls => Json.arr (ls.map (fun (v : Int) => toJson v)).toArray).toArray
+
+def targOfJson (j : Json) : TArr :=
+  let cont := contOfString (getStr j "cont")
+  let dt := dtOfString (getStr j "dtype")
+  let shape := (getArr j "shape").map asNat
+  let data := (getArr j "data").toArray
+  let labels := match j.getObjVal? "labels" with
+    | .ok (.arr a) => labelsOfJson (.arr a)
+    | _ => []
+  if dt == .f64 then { cont := cont, dt := dt, flts := arrOfFlat shape (data.map fOfJson), labels := labels }
+  else { cont := cont, dt := dt, ints := arrOfFlat shape (data.map asInt), labels := labels }
+
+def callOfJson (j : Json) (op : Op) : Call :=
+  let axis : AxisArg := match j.getObjVal? "axis" with
+    | .ok (.arr a) => .many (a.toList.map asInt)
+    | .ok (.num n) => if n.exponent = 0 then .one n.mantissa else .none
+    | _ => .none
   let index : IndexArg := match j.getObjVal? "index" with
     | .ok (.arr a) => .seq (a.toList.map asInt)
     | .ok v => .int (asInt v)
     | _ => .int 0
-  { axis := axis, index := index }
+  let style : Style := match getStr j "style" with | "axis" => .axis | "dim" => .dim | _ => .none
+  let dimKind : DimKind := match getStr j "dimkind" with
+    | "absent" => .absent | "npint" => .npInt | "name" => .name | _ => .pyInt
+  { op := op, kw := { axis := axis, index := index }, style := style, dimKind := dimKind, sel := getBool j "sel",
+    stackDimExists := getBool j "stack_dim_exists", concatDimMissing := getBool j "concat_dim_missing" }
 
-def arrToJson (x : Arr) : Json :=
-  Json.mkObj [("shape", nats x.shape),
-              ("data", Json.arr (x.elems.map (fun v => Json.arr #[toJson v.num, toJson v.den])).toArray)]
-
-def errJson : Json := Json.mkObj [("error", Json.bool true)]
+def resultToJson (r : Result) : Json :=
+  let (shape, data) :=
+    if r.dt == .f64 then (r.flts.shape, (r.flts.elems.map fToJson).toArray)
+    else (r.ints.shape, (r.ints.elems.map (fun (v : Int) => toJson v)).toArray)
+  Json.mkObj [("dtype", Json.str (dtToString r.dt)), ("shape", nats shape), ("data", Json.arr data),
+              ("labels", match r.labels with | none => Json.null | some l => labelsToJson l)]
 
 def runCase (j : Json) : Json :=
   match opOfString (getStr j "op") with
   | none => Json.str "bad-op"
   | some op =>
-    let kw := kwOfJson j
-    let args := (getArr j "args").map arrOfJson
-    let f := sem id kw op
-    match j.getObjVal? "batches" with
-    | .ok (.arr sizes) =>
-      let bs := cut (sizes.toList.map asNat) args
-      let innerOk := bs.all fun b => match b with | [_] => true | b => valid kw op b
-      if !innerOk then errJson else
-      let mids := bs.map (applyBatch f)
-      if valid kw op mids then arrToJson (f mids) else errJson
-    | _ => if valid kw op args then arrToJson (f args) else errJson
+    let c := callOfJson j op
+    let args := (getArr j "args").map targOfJson
+    let res := match j.getObjVal? "batches" with
+      | .ok (.arr sizes) => runBatched c (getBool j "literal") (sizes.toList.map asNat) args
+      | _ => run c args
+    match res with
+    | .ok r => resultToJson r
+    | .error e => Json.mkObj [("error", Json.str e)]
 
 def c15Step (s : Unit) (j : Json) : Unit × Json := (s, runCase j)
 
